@@ -1,7 +1,7 @@
 (** Entry points of the executable model used by the correspondence driver (ocaml/modeldrv.ml).
     Every entry point maps a list of byte strings (the case's arguments) to one line of text. *)
 From Coq Require Import List NArith ZArith Bool String.
-From BL Require Import Base.Bytes Reader.Entry Reader.SegMap Reader.EventStream Reader.Filter Render.Pretty.
+From BL Require Import Base.Bytes Reader.Entry Reader.SegMap Reader.EventStream Reader.Filter Render.Pretty Render.Time.
 Import ListNotations.
 Local Open Scope N_scope.
 
@@ -36,9 +36,11 @@ Definition end_token (st : endst) : bytes :=
 
 (** stage-1 stand-ins; replaced by Render.Message / Render.Time when present *)
 Definition stub_msg (local : bool) (tfmt : bytes) (v : view) : bytes * bool := (str "<m>", true).
-Definition stub_time (local : bool) (tfmt : bytes) (cs : clocksync) (clock : N) : bytes := str "<t>".
+(** the code as it is now: floor (D3), non-negative %y (D4), wide abs (D5) *)
+Definition cfg_now := mkTC true true true.
+Definition model_time (local : bool) (tfmt : bytes) (cs : clocksync) (clock : N) : bytes := fst (render_clock cfg_now local tfmt cs clock).
 
-Definition the_render (fmt tfmt : bytes) : view -> bytes * bool := print_event stub_msg stub_time fmt tfmt.
+Definition the_render (fmt tfmt : bytes) : view -> bytes * bool := print_event stub_msg model_time fmt tfmt.
 
 Definition api_print (fmt tfmt log : bytes) : bytes :=
   let (t, st) := print_events (the_render fmt tfmt) log in end_token st ++ sp ++ hex t.
